@@ -146,7 +146,9 @@ def run_case(a):
             res["viol"].append(("C03 commands.ts-missing", "no commands.ts although %d commands exist; stdout=%s" % (len(truth), g.run.out[-200:])))
             return dict(res, witness=proj.witness_of(files, mode))
         if out.mods["commands.ts"].errors:
-            return {"blocked": "commands.ts does not parse (C01)"}
+            pf = common.parse_fault(out, ("commands.ts",))
+            res["viol"].append(("C03 commands.ts-does-not-parse " + pf[0], pf[1]))
+            return dict(res, witness=proj.witness_of(files, mode))
         seen = {}
         for fname, lst in out.commands().items():
             for c in lst:
